@@ -12,13 +12,15 @@ Proved here, for every row of the regenerated table in the family and every payl
 * DPT 7 (incl. resolution 10/100): generic integer proof under `wfU16` (value range = raw range × resolution);
 * DPT 8 with float resolution (DPTPercentV16): complete kernel sweep of the 65 536 raw words through the
   binary64 model (the pre-fix truncation `00 1d → 0.29 → 00 1c` is a failing obligation of exactly this sweep).
-Partial (hypothesis named, see notes/C08.md): DPT 8 with integer resolution and DPT 9 — reduced to a numeric
-core over the 65 536 words (`s16Core`, `f16Core`) that is too slow for the kernel; the core is evaluated
-completely by the compiled model in every run and a sample of chunks by the kernel.
+* DPT 8 with integer resolution: the same sweep per declared (min, max, resolution) tuple.
+Partial (hypothesis named, see notes/C08.md): DPT 9 — reduced to a range-independent numeric core over the
+65 536 words (`f16Core`) that is too slow for the kernel (≈0.5 s per word at high exponents); the core is
+evaluated completely by the compiled model in every run and a sample by the kernel.
 Correspondence only: DPT 14, 16, 10, 11, 19, 232, 235, 242, 243, 249–254.
 -/
 import XknxVerif.Lemmas.DPTSweep
 import XknxVerif.Sweep.S16.All
+import XknxVerif.Sweep.S16Int.All
 import XknxVerif.Sweep.OneItemA.All
 import XknxVerif.Sweep.OneItemB.All
 
@@ -61,7 +63,9 @@ theorem roundtrip_u16 (r : Row) (hr : r ∈ Generated.table) (hf : r.family = .u
 def s16Shape (r : Row) : Bool := r.kind == .array && r.length == 2 && r.fmt == ">h"
 
 theorem s16_rows_shape : (Generated.table.filter fun r => r.family == .s16).all
-    (fun r => s16Shape r && (match r.res with | .flt _ => s16FloatParams.contains (s16Params r) | .int _ => true)) = true := by
+    (fun r => s16Shape r && (match r.res with
+      | .flt _ => s16FloatParams.contains (s16Params r)
+      | .int _ => s16IntParams.contains (s16Params r))) = true := by
   decide +kernel
 
 /-- (4) DPT 8 with a float resolution (DPTPercentV16): complete sweep of the 65 536 raw words. -/
@@ -75,18 +79,24 @@ theorem roundtrip_s16_float (r : Row) (hr : r ∈ Generated.table) (hf : r.famil
   obtain ⟨⟨⟨hk, hl⟩, hfmt⟩, hP⟩ := hs
   exact s16_rt ctx r hf hk hl hfmt (fun i h1 h2 => s16_of_chunks Sweep.S16.all _ hP i h1 h2) p hp
 
-/-- (4') DPT 8 with an integer resolution — PARTIAL: reduced to the numeric core `s16Core` on the 65 536 raw
-words (binary64 division of exactly representable integers), which is assumed here.
-Full statement: the same without `hcore`. -/
-theorem roundtrip_s16_int_partial (r : Row) (hr : r ∈ Generated.table) (hf : r.family = .s16)
-    (hcore : ∀ i : Int, -32768 ≤ i → i ≤ 32767 → s16Core (s16Params r) i = true)
-    (p : Payload) (hp : p.WF) : RT ctx r p := by
+/-- (4') DPT 8 with an integer resolution (1, 10, 100): complete sweep of the 65 536 raw words per declared
+parameter tuple (binary64 division of exactly representable integers). -/
+theorem roundtrip_s16_int (r : Row) (hr : r ∈ Generated.table) (hf : r.family = .s16)
+    (hres : ∃ k, r.res = .int k) (p : Payload) (hp : p.WF) : RT ctx r p := by
   have hm : r ∈ Generated.table.filter fun r => r.family == .s16 := by
     rw [List.mem_filter]; exact ⟨hr, by simp [hf]⟩
   have hs := List.all_eq_true.mp s16_rows_shape r hm
-  simp only [s16Shape, Bool.and_eq_true, beq_iff_eq] at hs
-  obtain ⟨⟨⟨hk, hl⟩, hfmt⟩, _⟩ := hs
-  exact s16_rt ctx r hf hk hl hfmt hcore p hp
+  obtain ⟨k, hk'⟩ := hres
+  simp only [s16Shape, hk', Bool.and_eq_true, beq_iff_eq, List.contains_iff_mem] at hs
+  obtain ⟨⟨⟨hk, hl⟩, hfmt⟩, hP⟩ := hs
+  exact s16_rt ctx r hf hk hl hfmt (fun i h1 h2 => s16int_of_chunks Sweep.S16Int.all _ hP i h1 h2) p hp
+
+/-- (4'') every DPT 8 class -/
+theorem roundtrip_s16 (r : Row) (hr : r ∈ Generated.table) (hf : r.family = .s16)
+    (p : Payload) (hp : p.WF) : RT ctx r p := by
+  cases hres : r.res with
+  | int k => exact roundtrip_s16_int r hr hf ⟨k, hres⟩ p hp
+  | flt f => exact roundtrip_s16_float r hr hf ⟨f, hres⟩ p hp
 
 theorem f16_rows_shape : (Generated.table.filter fun r => r.family == .f16).all
     (fun r => r.kind == .array && r.length == 2) = true := by decide +kernel
